@@ -196,11 +196,15 @@ def generate(rng, seed, size):
     # and one whose placeholder fields are of a type whose own Display formats ANOTHER value of the same enum (through
     # `{}` or through to_string()): formatting must be re-entrant - no scratch state shared between an outer and a nested call
     n_reent = 1
-    for ei in range(target + n_shared + n_optional + n_bare + n_reent):
+    # and a pair under the same serialize_all style in which prefix + identifier of one enum spell the identifier of the other
+    # (`prefix = "Raw"` + `Mode` / `RawMode`): names derived for one enum must not be handed to the other
+    n_pair = 0 if minimal else 2
+    for ei in range(target + n_shared + n_optional + n_bare + n_reent + n_pair):
         shared_enum = target <= ei < target + n_shared
         optional_enum = target + n_shared <= ei < target + n_shared + n_optional
         bare_enum = target + n_shared + n_optional <= ei < target + n_shared + n_optional + n_bare
-        reent_enum = ei >= target + n_shared + n_optional + n_bare
+        reent_enum = target + n_shared + n_optional + n_bare <= ei < target + n_shared + n_optional + n_bare + n_reent
+        pair_enum = ei - (target + n_shared + n_optional + n_bare + n_reent) if ei >= target + n_shared + n_optional + n_bare + n_reent else None
         ename = "D%d" % ei
         block_start = len(out)
         out.append("// @case-begin %s%s\n" % (ename, " optional" if optional_enum else ""))
@@ -208,12 +212,14 @@ def generate(rng, seed, size):
         nvar = rng.randint(1, 7)
         if shared_enum:
             prefix, nvar = None, len(SHARED_IDENTS)
-        if optional_enum or bare_enum or reent_enum:
+        if optional_enum or bare_enum or reent_enum or pair_enum is not None:
             prefix, nvar = None, 1
         # serialize_all: only together with identifiers whose word splitting is unambiguous (casing.py)
         style = rng.choice(casing.STYLES) if (rng.random() < 0.3 and not minimal) else None
         if shared_enum or optional_enum or bare_enum or reent_enum:
             style = None
+        if pair_enum is not None:
+            style = "snake_case"
         # systematic part: the first enums cover every serialize_all style, each with a variant named by its
         # (non-ASCII) identifier alone
         forced_style = (not robust) and ei < len(casing.STYLES)
@@ -354,6 +360,13 @@ def generate(rng, seed, size):
                     ("unit", [], [], ['#[strum(to_string = "ts", serialize = "ts", serialize = "ts-longer")]'], "ts")]:
                 variants.append(dict(ident="B%d" % len(variants), kind=kind, disabled=False, attrs=attrs, fixed=canon, literal=None,
                                      tys=tys, fnames=fnames, ref=None))
+        if pair_enum is not None:
+            variants = []
+            pair_prefix = "Raw" if pair_enum == 0 else None
+            for (ident, kind, tys, fnames) in ([("Mode", "unit", [], []), ("BetaGamma", "tuple", ["u8"], []), ("Xy", "named", ["i64"], ["a"])] if pair_enum == 0 else
+                                               [("RawMode", "unit", [], []), ("RawBetaGamma", "named", ["u8"], ["b"]), ("RawXy", "tuple", ["i64"], [])]):
+                variants.append(dict(ident=ident, kind=kind, disabled=False, attrs=[], fixed=casing.convert(ident, style), literal=None, tys=tys,
+                                     fnames=fnames, ref=None))
         if reent_enum:
             variants = []
             w = "Wrap%s" % ename
@@ -367,8 +380,9 @@ def generate(rng, seed, size):
             out.append("impl Pick for %s { fn pick(i: u64) -> Self { %s(<u8 as Pick>::pick(i)) } }\n" % (w, w))
             out.append("impl fmt::Display for %s {\n    fn fmt(&self, f: &mut fmt::Formatter<'_>) -> fmt::Result {\n"
                        "        // a nested use of the enum's own Display while an outer one is in progress\n"
+                       "        if self.0 %% 4 == 1 && self.0 < 20 { return write!(f, \"<{}>\", %s::Twice(%s(self.0 - 1))); } // the SAME variant, nested\n"
                        "        if self.0 %% 2 == 0 { write!(f, \"[{}]\", %s::Leaf(self.0)) } else { f.write_str(&%s::Leaf(self.0).to_string())?; write!(f, \"{}\", %s::Fixed) }\n"
-                       "    }\n}\n" % (w, ename, ename, ename))
+                       "    }\n}\n" % (w, ename, w, ename, ename, ename))
         # prefixes chosen with the variants in view: a brace in the prefix (only legal when no name is a format
         # literal), or a prefix that equals the beginning of one of the names it is prepended to
         has_interp = any(v["literal"] is not None for v in variants)
@@ -376,6 +390,8 @@ def generate(rng, seed, size):
             # systematic: enums 11..15 have fixed names only and a prefix with braces in it
             # (an unmatched closing brace, or `{x}`, in the prefix is rejected by the macro: outside the domain)
             prefix = ["{", "{{x", "x{", "{{", "é{"][ei - 11]
+        elif pair_enum is not None:
+            prefix = pair_prefix
         elif not robust and not shared_enum and not optional_enum and not bare_enum and not reent_enum:
             r = rng.random()
             if r < 0.08 and not has_interp:
@@ -391,7 +407,7 @@ def generate(rng, seed, size):
         decl = "<'a>" if uses_lt else ""
         inst = "<'static>" if uses_lt else ""
         # a type parameter (never displayed: Display is derived without bounds) in a fixed-name variant
-        if not uses_lt and not robust and not shared_enum and not optional_enum and not bare_enum and not reent_enum and rng.random() < 0.12:
+        if not uses_lt and not robust and not shared_enum and not optional_enum and not bare_enum and not reent_enum and pair_enum is None and rng.random() < 0.12:
             decl, inst = "<T>", "<u8>"
             gv = dict(ident="Gen%d" % len(variants), kind=rng.choice(["tuple", "named"]), disabled=False, attrs=[], fixed=None,
                       literal=None, tys=["T"], fnames=["gen_field"], ref=None)
